@@ -119,7 +119,7 @@ def main():
                         break
                     # the two table paths against on-demand evaluation of the same object: tight
                     a, b2 = exact.cplx(o["table_keep"][ti]), exact.cplx(o["table_keep_ondemand"][ti])
-                    if abs(a - b2) > 1e-12 * (1 + abs(a)):
+                    if not (abs(a - b2) <= 1e-12 * (1 + abs(a))):
                         c.violation("model %s beta=%s: table value %s differs from on-demand value %s of the same object for %s%s" % (desc, beta, a, b2, o["q"], t), dict(rep, quad=o["q"], triple=t), cls="table:ondemand")
                         ok = False
                         break
